@@ -289,4 +289,65 @@ def rule_d(ctx: Ctx) -> None:
     ctx.explain('C10.d: each public entry point constructs its validation context locally and never stores it on self.')
 
 
-RULES = [rule_a, rule_b, rule_c, rule_d]
+def rule_e(ctx: Ctx) -> None:
+    """Soundness of persistent 'already seen' markers: work that is skipped on later calls because a marker was set must not have
+    depended on per-call state when the marker was set (otherwise what the first call happened to have in scope decides what every
+    later call gets)."""
+    rule = 'C10.e'
+    ws = inventory(ctx)
+    writer_funcs = {w.func.qualname.split('.')[-1] for w in ws}
+    n = 0
+    for f in {w.func.qualname: w.func for w in ws}.values():
+        g = cfg_of(ctx, f)
+        for t in g.nodes:
+            if t.kind != 'if':
+                continue
+            tt = t.ast.test
+            if not (isinstance(tt, ast.Compare) and len(tt.ops) == 1 and isinstance(tt.ops[0], ast.NotIn) and text(tt.comparators[0]).startswith('self.')):
+                continue
+            marker = text(tt.comparators[0])
+            keyv = text(tt.left)
+            adds = [c for s_ in t.ast.body for c in calls(s_) if text(c.func) == f'{marker}.add' and c.args and text(c.args[0]) == keyv]
+            if not adds:
+                continue
+            n += 1
+            # per-call taint: locals bound from `context…` inside the branch
+            tainted = {'context'}
+            changed = True
+            while changed:
+                changed = False
+                for s_ in t.ast.body:
+                    for x in ast.walk(s_):
+                        tgt = None
+                        if isinstance(x, ast.For):
+                            tgt, src = x.target, x.iter
+                        elif isinstance(x, ast.Assign) and len(x.targets) == 1:
+                            tgt, src = x.targets[0], x.value
+                        if tgt is not None and ({y.id for y in ast.walk(src) if isinstance(y, ast.Name)} & tainted):
+                            for y in ast.walk(tgt):
+                                if isinstance(y, ast.Name) and y.id not in tainted:
+                                    tainted.add(y.id)
+                                    changed = True
+            body_nodes = set()
+            for s_ in t.ast.body:
+                for sub in ast.walk(s_):
+                    body_nodes.update(g.nodes_of(sub))
+            bad = []
+            for m, c in call_nodes(g, lambda c: isinstance(c.func, ast.Attribute) and c.func.attr in writer_funcs):
+                if m not in body_nodes:
+                    continue
+                extra = guards(ctx, f, m) - guards(ctx, f, t) - {(text(tt), 'T')}
+                dep = [(x, lab) for x, lab in extra if any(tn in x.replace('(', ' ').replace('.', ' ').split() for tn in tainted)]
+                if dep:
+                    bad.append((c, dep))
+            ok = not bad
+            ctx.ob(rule, f'{f.qualname.split(".", 1)[-1]}: the persistent marker `{marker}` is only set together with work that does not depend on per-call state',
+                   f.loc(t.ast), ok, '' if ok else f'`{text(bad[0][0])[:60]}` runs only under {sorted(bad[0][1])} (per-call state), but `{marker}.add({keyv})` '
+                   f'marks the key as done for every later call: what the first call had in scope decides what later calls get',
+                   key=f'{f.qualname}|marker|{marker}')
+    ctx.floor(rule, 'persistent seen-markers at validation time', n, 1)
+    ctx.explain('C10.e: for each `k not in self.<set>` … `self.<set>.add(k)` marker on persistent state, the persistent writes in the '
+                'guarded branch must not be control dependent on per-call state (taint from `context`).')
+
+
+RULES = [rule_a, rule_b, rule_c, rule_d, rule_e]
